@@ -45,8 +45,13 @@ def specs(tier):
                           'manual']),
                 id10_spec(1, ops=['push', 'eval_pr', 'merge_pr2']),
                 spec('c15-noq-F3', 'F3', False, 2, 'development/4.3',
-                     'development/5.1', ops=['manual', 'eval_pr'])]
+                     'development/5.1', ops=['manual', 'eval_pr']),
+                # the command given twice in a row
+                spec('c15-noq-D2-twice', 'D2', False, 0, 'development/4.3',
+                     'development/5.1', double_reset=True, max_depth=5)]
     return [id10_spec(2),
+            spec('c15-noq-D3-twice', 'D3', False, 1, 'development/4.3',
+                 'development/5.1', double_reset=True, max_depth=7),
             spec('c15-noq-F3', 'F3', False, 3, 'development/4.3',
                  'development/5.1'),spec('c15-noq-D3', 'D3', False, 3, 'development/4.3',
                  'development/5.1'),
